@@ -21,7 +21,7 @@ namespace xmc {
 
 struct Item {
   uint16_t ndev;
-  uint8_t cp, cd, cr, pad;
+  uint8_t cp, cd, cr, cs;
   uint32_t from; // first choice point at which a new deviation may be introduced
   Dev devs[MAXDEV];
 };
@@ -79,7 +79,7 @@ static Result* RES; // one per worker
 
 struct Opts {
   const char* test = nullptr;
-  int c = 2, d = 0, r = 0;
+  int c = 2, d = 0, r = 0, s = 0;
   int iterate = 1;
   int workers = 16;
   double deadline = 0;
@@ -287,14 +287,15 @@ static void worker_loop(Test* t, int wid, int level_c) {
       for (uint32_t i = np; i-- > it.from;) { // push deeper points last => explored first? LIFO: push shallow first
         const Point& p = res->points[i];
         for (int alt = p.arity - 1; alt >= 1; alt--) {
-          int cp = it.cp, cd = it.cd, cr = it.cr;
+          int cp = it.cp, cd = it.cd, cr = it.cr, cs = it.cs;
           bool costs = (p.cm == CM_PREEMPT) || (p.cm == CM_LASTCOSTS && alt == p.arity - 1);
           if (costs) {
             if (p.kind == K_SCHED) cp++;
             else if (p.kind == K_RF) cd++;
             else if (p.kind == K_RAND) cr++;
+            else if (p.kind == K_SPUR) cs++;
           }
-          if (cp > level_c || cd > O.d || cr > O.r) continue;
+          if (cp > level_c || cd > O.d || cr > O.r || cs > O.s) continue;
           if (it.ndev >= MAXDEV) {
             S->engine_errors++;
             S->stop = 1;
@@ -317,6 +318,7 @@ static void worker_loop(Test* t, int wid, int level_c) {
           n.cp = uint8_t(cp);
           n.cd = uint8_t(cd);
           n.cr = uint8_t(cr);
+          n.cs = uint8_t(cs);
           n.from = i + 1;
         }
       }
@@ -419,8 +421,8 @@ static int run_explore(Test* t) {
   json_str(jf, t->name);
   fprintf(jf, ",\"desc\":");
   json_str(jf, t->desc ? t->desc : "");
-  fprintf(jf, ",\"mode\":\"%s\",\"W\":%d,\"heap\":\"%s\",\"bounds\":{\"c\":%d,\"d\":%d,\"r\":%d},\"horizon\":%ld,\"levels\":[",
-          g_cfg.mode ? "wmm" : "sc", g_cfg.W, g_cfg.heap_reuse ? "reuse" : "quarantine", O.c, O.d, O.r, g_cfg.horizon);
+  fprintf(jf, ",\"mode\":\"%s\",\"W\":%d,\"heap\":\"%s\",\"bounds\":{\"c\":%d,\"d\":%d,\"r\":%d,\"s\":%d},\"horizon\":%ld,\"levels\":[",
+          g_cfg.mode ? "wmm" : "sc", g_cfg.W, g_cfg.heap_reuse ? "reuse" : "quarantine", O.c, O.d, O.r, O.s, g_cfg.horizon);
   int completed = -1;
   bool stopped = false;
   uint64_t tot_execs = 0, tot_points = 0, tot_steps = 0, tot_double = 0, tot_pruned = 0;
@@ -535,6 +537,7 @@ int main(int argc, char** argv) {
   g_cfg.mode = 0;
   g_cfg.W = 16;
   g_cfg.heap_reuse = 0;
+  g_cfg.spur = 0;
   g_cfg.horizon = 20000;
   g_cfg.plain_horizon = 20000000;
   g_cfg.solo_limit = 5000;
@@ -546,6 +549,7 @@ int main(int argc, char** argv) {
     else if (arg("--c")) O.c = atoi(argv[++i]);
     else if (arg("--d")) O.d = atoi(argv[++i]);
     else if (arg("--r")) O.r = atoi(argv[++i]);
+    else if (arg("--s")) O.s = g_cfg.spur = atoi(argv[++i]);
     else if (arg("--mode")) g_cfg.mode = !strcmp(argv[++i], "wmm");
     else if (arg("--W")) g_cfg.W = atoi(argv[++i]);
     else if (arg("--heap")) g_cfg.heap_reuse = !strcmp(argv[++i], "reuse");
